@@ -43,6 +43,9 @@ def classify(e):
             return Pred('valid', [norm(e.args[0])], op=ln, raw=e)
         if ln in ('eq', 'ne') and len(e.args) == 2:
             return Pred('eq', [norm(e.args[0]), norm(e.args[1])], neg=(ln == 'ne'), raw=e)
+        if ln == 'is_empty' and e.args:
+            # x.is_empty()  ==  len(x) == 0
+            return Pred('eq', [E('call', 'len', [norm(e.args[0])], ty='usize'), E('const', c={'k': 'int', 'bits': '0', 'ty': 'usize', 'size': 8}, ty='usize')], raw=e)
         if ln == 'is_err' or ln == 'is_ok' or ln == 'is_none' or ln == 'is_some':
             return Pred(ln, [norm(e.args[0])], raw=e)
     if e.k == 'binop' and e.name in NEGOP:
